@@ -28,6 +28,18 @@ def _usage_loop(f, env, scope):
     return None
 
 
+def _atoms(t):
+    out = set()
+    st = [t]
+    while st:
+        x = st.pop()
+        if isinstance(x, tuple):
+            st.extend(x)
+        else:
+            out.add(x)
+    return out
+
+
 def r2(ctx, fs):
     rid = 'C05.R2'
     ctx.rule(rid, 'reusable_resource::get_current_incs: active atoms only; at every pulse usage += arith_value(amount) for every overlapping atom, unconditionally; peak iff usage > capacity of the resource instance; '
@@ -40,7 +52,12 @@ def r2(ctx, fs):
     if ul:
         n, a, adds, cond = ul
         s = show(adds[0]) if adds else ''
-        ok = len(adds) == 1 and adds[0][0] == '+=' and adds[0][1] == 'c_usage' and 'core::arith_value' in s and "(mcall env::get %s " % a in s and "'amount'" in s and not cond
+        ok = len(adds) == 1 and adds[0][0] == '+=' and isinstance(adds[0][1], str) and 'core::arith_value' in s and "(mcall env::get %s " % a in s and "'amount'" in s and not cond
+        U = adds[0][1] if adds else None       # the accumulator, whatever it is called
+    else:
+        U = None
+    if True:
+        pass
     ctx.instance(rid, [f.id, 'usage'], {'accumulation': [show(x)[:200] for x in (ul[2] if ul else [])], 'unconditional': bool(ul) and not ul[3]})
     if not ok:
         ctx.finding(rid, f.id, 'usage', 'reusable_resource::get_current_incs: the concurrent usage must add the amount of every overlapping atom (c_usage += arith_value(a->get(amount)), no filter)', node=ul[0] if ul else None, loc=f.loc)
@@ -54,29 +71,39 @@ def r2(ctx, fs):
     ctx.instance(rid, [f.id, 'capacity'], {'capacity': show(cap)[:200]})
     if not okc:
         ctx.finding(rid, f.id, 'capacity', 'the capacity compared with must be the current value of the capacity field of the resource instance being checked (found %s)' % show(cap)[:200], loc=f.loc)
-    peak = [n for n in f.nodes() if n.get('k') == 'IfStmt' and 'c_usage' in show(canon(n['slots']['cond'], env, subst=False))]
+    peak = [n for n in f.nodes() if n.get('k') == 'IfStmt' and U is not None and U in _atoms(canon(n['slots']['cond'], env, subst=False))]
     pk = canon(peak[0]['slots']['cond'], env, subst=False) if peak else None
     ctx.instance(rid, [f.id, 'peak'], {'peak_test': show(pk)})
-    if pk != ('<', 'c_capacity', 'c_usage'):
+    if pk != ('<', 'c_capacity', U):
         ctx.finding(rid, f.id, 'peak', 'a pulse is a peak iff the usage exceeds the capacity (c_usage > c_capacity); found %s' % show(pk), node=peak[0] if peak else None, loc=f.loc, expect='c_usage > c_capacity')
     # MCS window
-    grow = [n for n in f.nodes() if n.get('k') == 'WhileStmt' and 'mcs_usage' in show(canon(n['slots']['cond'], env, subst=False))]
+    # the MCS usage accumulator: the local compared with the capacity in the condition of the window-growing loop
+    M = None
+    grow = []
+    for n in f.nodes():
+        if n.get('k') == 'WhileStmt':
+            c = canon(n['slots']['cond'], env, subst=False)
+            for x in (c[1:] if isinstance(c, tuple) and c[0] == '&&' else (c,)):
+                if isinstance(x, tuple) and len(x) == 3 and x[0] == '<=' and x[2] == 'c_capacity' and isinstance(x[1], str):
+                    M = x[1]
+                    grow = [n]
     gc = canon(grow[0]['slots']['cond'], env, subst=False) if grow else None
-    okg = isinstance(gc, tuple) and gc[0] == '&&' and ('<=', 'mcs_usage', 'c_capacity') in gc
-    rep = [n for n in f.nodes() if n.get('k') == 'IfStmt' and canon(n['slots']['cond'], env, subst=False) == ('<', 'c_capacity', 'mcs_usage')]
+    okg = isinstance(gc, tuple) and gc[0] == '&&' and ('<=', M, 'c_capacity') in gc
+    INCS = [nd.get('name') for nd in env.decls.values() if nd.get('t') == 'std::vector<std::vector<std::pair<smt::lit, double>>>']
+    rep = [n for n in f.nodes() if n.get('k') == 'IfStmt' and M is not None and canon(n['slots']['cond'], env, subst=False) == ('<', 'c_capacity', M)]
     okr = False
     if len(rep) == 1:
         body = rep[0]['slots']['then']
-        direct = [s for s in (body.get('c') or []) if s.get('k') == 'CXXMemberCallExpr' and (s.get('callee_name') or '').endswith('::emplace_back') and canon(s['c'][0]['c'][0], env, subst=False) == 'incs']
-        alls = [m for m in walk(body) if m.get('k') == 'CXXMemberCallExpr' and (m.get('callee_name') or '').endswith('::emplace_back') and canon(m['c'][0]['c'][0], env, subst=False) == 'incs']
+        direct = [s for s in (body.get('c') or []) if s.get('k') == 'CXXMemberCallExpr' and (s.get('callee_name') or '').endswith('::emplace_back') and canon(s['c'][0]['c'][0], env, subst=False) in INCS]
+        alls = [m for m in walk(body) if m.get('k') == 'CXXMemberCallExpr' and (m.get('callee_name') or '').endswith('::emplace_back') and canon(m['c'][0]['c'][0], env, subst=False) in INCS]
         shrink = [canon(m, env) for m in (body.get('c') or []) if m.get('k') == 'CXXOperatorCallExpr' and m.get('op') == '-=']
         pops = [m for m in (body.get('c') or []) if m.get('k') == 'CXXMemberCallExpr' and (m.get('callee_name') or '').endswith('::pop_front')]
-        okr = len(direct) == 1 and len(alls) == 1 and len(shrink) == 1 and shrink[0][1] == 'mcs_usage' and "'amount'" in show(shrink[0]) and 'front' in show(shrink[0]) and len(pops) == 1
+        okr = len(direct) == 1 and len(alls) == 1 and len(shrink) == 1 and shrink[0][1] == M and "'amount'" in show(shrink[0]) and 'front' in show(shrink[0]) and len(pops) == 1
     ctx.instance(rid, [f.id, 'mcs'], {'grow_while': show(gc), 'report_once_and_shrink': okr})
     if not okg or not okr:
         ctx.finding(rid, f.id, 'mcs', 'the minimal-conflict-set window must grow while mcs_usage <= capacity, report exactly one choice set when mcs_usage > capacity and then drop its first atom', loc=f.loc)
     accs = [canon(m, env) for n in grow for m in walk(n['slots']['body']) if m.get('k') == 'CXXOperatorCallExpr' and m.get('op') == '+=']
-    if not accs or accs[0][1] != 'mcs_usage' or "'amount'" not in show(accs[0]):
+    if not accs or accs[0][1] != M or "'amount'" not in show(accs[0]):
         ctx.finding(rid, f.id, 'mcs/usage', 'the MCS usage must accumulate the amount of every atom added to the window', loc=f.loc)
 
 
@@ -95,7 +122,7 @@ def r3(ctx, fs):
             raise AnalysisBroken('%s: usage accumulation loop not found' % f.id)
         n, a, adds, cond = ul
         from ..schema import _rename
-        accs[nm] = (tuple(_rename(x, {a: '$a'}) for x in adds), cond)
+        accs[nm] = (tuple(_rename(x, {a: '$a', (adds[0][1] if adds and isinstance(adds[0], tuple) and len(adds[0]) > 1 and isinstance(adds[0][1], str) else '$none'): '$u'}) for x in adds), cond)      # the accumulator by role
         ctx.instance(rid, [f.id, 'usage'], {'accumulation': [show(x)[:200] for x in accs[nm][0]], 'conditional': cond})
     if accs['get_current_incs'] != accs['extract_timelines']:
         f = fs.fn(RR + '::extract_timelines')
